@@ -104,7 +104,18 @@ func C09_upgrade_template() {
 			wantStatus = 400
 		}
 	case 5: // Connection
-		switch vChoose("connection", 6) {
+		switch vChoose("connection", 7) {
+		case 6: // two arbitrary list characters around the token text: "<c1><c2>Upgrade" / "upgrade<c1><c2>"
+			// (no blank inside an element: "x Upgrade" is not a well-formed list and is left open)
+			alpha := []byte{'x', '-', ',', '.', 'U'}
+			c1, c2 := alpha[vChoose("c1", len(alpha))], alpha[vChoose("c2", len(alpha))]
+			v := string([]byte{c1, c2}) + "Upgrade"
+			if vChoose("suffix", 2) == 1 {
+				v = "upgrade" + string([]byte{c1, c2})
+			}
+			connLine = []byte("Connection: " + v)
+			compliant = vHasUpgradeToken(v)
+			wantStatus = 400
 		case 0:
 			drop = 2
 			compliant = false
